@@ -156,8 +156,8 @@ def stepNamed (F : List Formal) (s : St) (ai : Nat) (x : Name) : St :=
     | some j2 => s.add j2 ai
     | none => s
 
-/-- one key of a `**TypedDict` actual.  In the code as found this branch has no `!= ARG_STAR` test
-    (`Cfg.typedDictKeyMayNameStarArgs = true`, F9 iii); once repaired it reads like the keyword branch. -/
+/-- one key of a `**TypedDict` actual.  Before the repair f470bb5 this branch had no `!= ARG_STAR` test
+    (`Cfg.typedDictKeyMayNameStarArgs = true`, F9 iii); since then it reads like the keyword branch (`false`). -/
 def stepKey (F : List Formal) (ai : Nat) (s : St) (x : Name) : St :=
   match nameIndex F x with
   | some j =>
